@@ -691,29 +691,18 @@ impl SlabRouter {
     /// Apply a single WAL entry to in-memory state.
     fn apply_wal_entry(&self, entry: &WalEntry) {
         match entry {
+            // Replaying a logged put / delete goes through the live code path, so that the
+            // recovered store is exactly what the call produced: the key's class decides where
+            // the value lives, only embedding keys get an index entry and a slab vector, and
+            // a value without a slab vector drops the one its predecessor left behind.
             WalEntry::MetadataSet { key, data } => {
-                self.metadata.set(key, data.clone());
-                // Also update embeddings if present
-                if let Some(TensorValue::Vector(vec)) = data.get("_embedding") {
-                    let entity_id = self.index.get_or_create(key);
-                    if let Err(e) = self.embeddings.set(entity_id, vec) {
-                        tracing::warn!(
-                            entity_id = %entity_id.as_u64(),
-                            key = %key,
-                            error = %e,
-                            "Failed to restore embedding during WAL replay"
-                        );
-                    }
+                if let Err(e) = self.put(key, data.clone()) {
+                    tracing::warn!(key = %key, error = %e, "Failed to replay put from WAL");
                 }
             },
             WalEntry::MetadataDelete { key } => {
-                if Self::classify_key(key) == KeyClass::Embedding {
-                    if let Some(entity_id) = self.index.get(key) {
-                        self.embeddings.delete(entity_id);
-                    }
-                    self.index.remove(key);
-                }
-                self.metadata.delete(key);
+                // NotFound: the key was not there when the delete was logged either
+                let _ = self.delete(key);
             },
             WalEntry::EmbeddingSet {
                 entity_id,
